@@ -30,6 +30,12 @@ def main():
                 meta['error'] = out[-500:]; continue
             rc, out = sh('go build ./... && go test -vet=off -count=1 ./... 2>&1 | grep -v "no test files"', cwd=wt)
             meta['suite_passes'] = rc == 0 and 'FAIL' not in out
+            if not meta['suite_passes'] and 'Test_StringDistribution' in out and out.count('--- FAIL') == 1:
+                # internal/hash Test_StringDistribution fails about once in 20 runs on the unchanged tree too (it demands
+                # zero 32-bit collisions under a random seed); run the suite again
+                rc, out = sh('go test -vet=off -count=1 ./... 2>&1 | grep -v "no test files"', cwd=wt)
+                meta['suite_passes'] = rc == 0 and 'FAIL' not in out
+                meta['suite_note'] = 'first run hit the known flake internal/hash Test_StringDistribution; re-run'
             if not meta['suite_passes']: meta['suite_output'] = out[-1500:]
             # demonstration
             demo = open(d+'/demo_test.go').read()
